@@ -96,6 +96,14 @@ def contexts(leaf):
         out.append(dyn([qwc(N("HLtOutlives", [N("HLErased"), leaf]))], N("HLErased")))
         out.append(dyn([qwc(N("HTyOutlives", [u8, leaf]))], N("HLErased")))
         out.append(dyn([qwc(N("HImplemented", [tr([])]))], leaf))
+    # two-bound dyns: the flagged leaf in the first bound, every kind of clause as the second one, and reversed
+    # (an arm of the dyn loop that overwrites instead of OR-ing only shows with >= 2 bounds)
+    first = qwc(N("HImplemented", [tr([leaf])]))
+    others = [qwc(N("HImplemented", [tr([u8])])), qwc(N("HTyOutlives", [u8, N("HLErased")])), qwc(N("HLtOutlives", [N("HLErased"), N("HLErased")])),
+              qwc(N("HAliasEq", [N(("HProjection", 0), [("Var", "STy", 1, 0)]), u8]))]
+    for o in others:
+        out.append(dyn([first, o], N("HLErased")))
+        out.append(dyn([o, first], N("HLErased")))
     if k == "T":
         out.append(leaf)
     return out
